@@ -1,6 +1,7 @@
 SPECIFICATION Spec
 CONSTANTS
   MaxLen = 7
+  RejectAlias = TRUE
   Emit = TRUE
-INVARIANTS ResolvedInside SyncNeverAlias EmitInv
+INVARIANTS ResolvedInside StagingInside ManifestStagingInside SyncNeverAlias EmitInv
 CHECK_DEADLOCK FALSE
